@@ -10,7 +10,7 @@
    fragment: a map entry that is a struct held by value has scalar/string/bytes fields only, no
    []byte and no map held by value as slice element, no []byte as map value. *)
 From Coq Require Import List Bool String Ascii ZArith Arith Floats.SpecFloat.
-From Verif Require Import Util Ints Floats Node GoSrc Value Outcome Nav LCSound SetEmit SetSpec SetSound SetMono SetGet Shapes GenUnits GenC03 GenC03x.
+From Verif Require Import Util Ints Floats Node GoSrc Value Outcome Nav LCSound SetEmit SetSpec SetSound SetMono SetGet Shapes GenUnits GenC03 GenC03x GenC03b.
 Import ListNotations.
 Local Open Scope string_scope.
 
@@ -88,6 +88,13 @@ Proof. vm_compute. reflexivity. Qed.
 (* the two own units of the stream c03x are well-formed and outside the sound fragment *)
 Example C03_xunits_unsound :
   forallb (fun u => wfn (root_node u) && root_ok (root_node u) && negb (sound_set (root_node u))) xunits = true.
+Proof. vm_compute. reflexivity. Qed.
+
+(* the two own units of the stream c03b (an element of every integer and float kind outside the
+   representative ones, as field, pointer field, slice element and map value: the places of the
+   boundary sweep) are inside the sound fragment *)
+Example C03_bunits_sound :
+  forallb (fun u => wfn (root_node u) && sound_set (root_node u) && root_ok (root_node u)) bunits = true.
 Proof. vm_compute. reflexivity. Qed.
 
 (* set then get, frame, creation on the path - on a concrete object *)
